@@ -33,6 +33,7 @@ import (
 //   bfs C D | bfs1 C D N          container.BFSTree in discovery order `n@dist`
 //   norm am|csr D                 Normalize(): rev=[..] then adjacency of the renumbered graph
 //   seg n1 e1 n2 e2 ... nk        MarshalSegment bytes (hex) and UnmarshalSegment of them
+//   toseg nodes edges             SerializedSegment{Nodes, Edges}.ToSegment() -> Nodes()/Edges() of the result, or `panic`
 //   tsbfs|tsdfs ts|proj D MAXDEPTH ROOT FILTER     handler calls in order, FILTER = all | nostart:ids | noedge:ids
 //   zone MAXDEPTH ids             WriteZoneBFSTree over the triple store, then BFSTreeFile.ReadEach
 
@@ -240,9 +241,9 @@ func (c14Suite) Gen(rng *Rng, tier string, w *bufio.Writer, stats *Stats) {
 	stats.Add("exhaustive.projection.deletion_sets", projSets)
 
 	// (3) random structured multigraphs
-	n := 120
+	n := 300
 	if thorough {
-		n = 2500
+		n = 6000
 	}
 	for i := 0; i < n; i++ {
 		emit(c14Random(rng, stats, i))
@@ -380,6 +381,13 @@ func c14Random(rng *Rng, stats *Stats, idx int) *c14Case {
 			}
 		}
 		c.add("seg %s", strings.Join(parts, " "))
+	}
+	if idx%15 == 0 {
+		c.add("toseg %d -", c14PickID(rng, pool))
+		if len(edges) > 0 {
+			e := edges[rng.Intn(len(edges))]
+			c.add("toseg %d,%d %d", e.s, e.e, e.id)
+		}
 	}
 	// triple-store traversals (kept small; maxDepth <= 0 only on acyclic graphs and never with `both`)
 	if len(edges) <= 12 && len(edges) > 0 {
@@ -873,6 +881,23 @@ func (r *c14Runner) Step(t []string, raw string) string {
 		}
 		back := container.UnmarshalSegment(buf.Bytes())
 		return fmt.Sprintf("hex=%s nodes=%s edges=%s", hex.EncodeToString(buf.Bytes()), fmtU64s(back.Nodes()), fmtU64s(back.Edges()))
+	case len(t) == 3 && t[0] == "toseg":
+		ns, ok1 := parseIDs(t[1])
+		es, ok2 := parseIDs(t[2])
+		if !ok1 || !ok2 {
+			return "bad-op"
+		}
+		r.stats.Inc("branch.toseg")
+		res := func() (out string) {
+			defer func() {
+				if p := recover(); p != nil {
+					out = "panic"
+				}
+			}()
+			sg := container.SerializedSegment{Nodes: ns, Edges: es}.ToSegment()
+			return fmt.Sprintf("nodes=%s edges=%s", fmtU64s(sg.Nodes()), fmtU64s(sg.Edges()))
+		}()
+		return res
 	case len(t) == 6 && (t[0] == "tsbfs" || t[0] == "tsdfs"):
 		var ts container.Triplestore
 		switch t[1] {
